@@ -181,6 +181,32 @@ Verdict judgeImpl(const Case& c, bool gp, bool strictRect = false) {
           // (iv) areas
           double at = tree.Area(), ap = Area(solP);
           if (std::fabs(at - ap) > 1e-9 * std::max(1.0, std::fabs(ap))) { v.fail("tree.Area() " + std::to_string(at) + " != paths area " + std::to_string(ap) + cfg); return v; }
+          // ---- free functions: BooleanOp into a tree carries the same paths as BooleanOp into paths ----
+          if (pc == 0 && rev == 0 && open.empty()) {
+            PolyTree64 ft;
+            BooleanOp(ct, fr, subj, clip, ft);
+            if (O::canon(PolyTreeToPaths64(ft)) != O::canon(BooleanOp(ct, fr, subj, clip))) { v.fail("BooleanOp(..., PolyTree64&) and BooleanOp(...) -> Paths64 return different paths" + cfg); return v; }
+            v.evals++;
+            if (useD) {
+              int prec = (int)c.I("prec", 2);
+              double sc = 1; while (sc <= std::pow(10.0, prec)) sc *= 2;   // ClipperD's scale: smallest power of two above 10^precision
+              if ((double)m * sc < 4e15) {
+                PathsD sd = TransformPaths<double, int64_t>(subj), cd = TransformPaths<double, int64_t>(clip);
+                PolyTreeD ftd;
+                BooleanOp(ct, fr, sd, cd, ftd, prec);
+                PathsD fpd = BooleanOp(ct, fr, sd, cd, prec);
+                auto toGrid = [&](const PathsD& pp) { Paths64 r; for (auto& p : pp) { Path64 q; for (auto& pt : p) q.emplace_back((int64_t)std::llround(pt.x * sc), (int64_t)std::llround(pt.y * sc)); r.push_back(q); } return r; };
+                if (O::canon(toGrid(PolyTreeToPathsD(ftd))) != O::canon(toGrid(fpd))) {
+                  v.fail("BooleanOp(..., PolyTreeD&, precision=" + std::to_string(prec) + ") and BooleanOp(..., precision) -> PathsD return different paths" + cfg);
+                  return v;
+                }
+                double ta = ftd.Area(), pa = Area(fpd);
+                if (std::fabs(ta - pa) > 1e-9 * std::max(1.0, std::fabs(pa))) { v.fail("BooleanOp PolyTreeD Area() differs from the PathsD area at precision " + std::to_string(prec) + cfg); return v; }
+                v.evals++;
+                ST.count("free_function_treeD_precision_" + std::to_string(prec));
+              }
+            }
+          }
           if (!useD) continue;
           // ---- PolyTreeD ----
           PathsD sd = TransformPaths<double, int64_t>(subj), cd = TransformPaths<double, int64_t>(clip), od = TransformPaths<double, int64_t>(open);
@@ -250,6 +276,7 @@ Case genGp() {
   ST.count("shape_" + g.shape);
   c.p["subj"] = g.subj;
   c.p["clip"] = g.clip;
+  c.i["prec"] = G::range(0, 4);
   if (G::chance(25)) {
     int64_t R = std::max<int64_t>(O::maxAbs(g.subj), 1000);
     Paths64 open;
@@ -269,6 +296,7 @@ Case genRect() {
   Case c;
   c.p["subj"] = GEN::rectPaths(L, 1, 4);
   c.p["clip"] = GEN::rectPaths(L, 0, 3);
+  c.i["prec"] = G::range(0, 4);
   return c;
 }
 
